@@ -30,6 +30,8 @@ import e3  # noqa: E402
 import e4  # noqa: E402
 
 bv32 = e3.bv32
+A0_ARG_SERVICES = [1, 4, 8, 9, 11, 32, 34, 35, 36, 93]   # PrintInt, PrintString, ReadString, Sbrk, PrintChar, Sleep, PrintInt{Hex,Binary,Unsigned}, Exit2
+A1_ARG_SERVICES = [8]                                     # ReadString (buffer, length)
 
 
 def observables(node, st):
@@ -52,10 +54,33 @@ def observables(node, st):
         return [("store address", "(bvadd %s %s)" % (R(st, i["rs1"]), bv32(i["imm"]))),
                 ("stored value", "(bvand %s %s)" % (R(st, i["rs2"]), mask))]
     if k == "System" and "ecall" in node["text"]:
-        return [("ecall number", R(st, 17))]
+        # the service number, and the argument registers of the services whose signature is beyond doubt
+        # (RARS "Supported syscalls"); services not listed here impose nothing
+        a7 = R(st, 17)
+        in_set = lambda nums: "(or false %s)" % " ".join("(= %s %s)" % (a7, bv32(n)) for n in nums)  # noqa: E731
+        return [("ecall number", a7),
+                ("ecall argument a0", "(ite %s %s #x00000000)" % (in_set(A0_ARG_SERVICES), R(st, 10))),
+                ("ecall argument a1", "(ite %s %s #x00000000)" % (in_set(A1_ARG_SERVICES), R(st, 11)))]
     if k == "Csr":
         return [("csr operand", R(st, i["rs1"]))]
+    if k == "System" and node["text"].strip() == "uret":
+        # back to the interrupted program, which may go on to read any register
+        return [("register x%d handed back to the interrupted program" % r, R(st, r)) for r in range(1, 32)]
     return []
+
+
+CALLER_SAVED = [5, 6, 7, 28, 29, 30, 31] + list(range(10, 18))   # t0-t6, a0-a7
+
+
+def clobber(node, post, fresh):
+    """C02: "ecalls reading and clobbering registers as the calling convention says" - after an
+    environment call every temporary and argument register holds whatever the environment left
+    there: a value that does not depend on the caller's non-argument registers (the same fresh
+    constant in both runs)."""
+    if node["kind"] == "inst" and node["inst"] and node["inst"]["k"] == "System" and "ecall" in node["text"]:
+        for c in CALLER_SAVED:
+            post["r"][c] = fresh()
+    return post
 
 
 def vcs_for(nodes):
@@ -72,13 +97,24 @@ def vcs_for(nodes):
         s1 = {"r": {i: "r%d" % i for i in range(1, 32)}, "m": "M"}
         s2 = {"r": {i: "e%d" % i for i in range(1, 32)}, "m": "M"}   # second run uses the e* constants
         agree = " ".join("(= r%d e%d)" % (r, r) for r in n["live_in"] if r != 0) or "true"
+        if n["kind"] == "inst" and n["text"].strip() == "ecall":
+            # eligible(): the sole predecessor is `li a7, N`, so both runs reach the ecall with a7 = N
+            # (which service it is decides which argument registers are read)
+            prevs = [m for m in n.get("prevs", []) if m >= 0]
+            pi = nodes[prevs[0]]["inst"] if len(prevs) == 1 else None
+            if pi and pi["k"] == "AluImm" and pi["op"] == "Add" and pi["rd"] == 17 and pi["rs1"] == 0:
+                agree += " (= r17 %s) (= e17 %s)" % (bv32(pi["imm"]), bv32(pi["imm"]))
         cnt[0] = 0
-        p1 = e4.step(n, s1, fresh)
+        p1 = clobber(n, e4.step(n, s1, fresh), fresh)
         cnt[0] = 0
-        p2 = e4.step(n, s2, fresh)
+        p2 = clobber(n, e4.step(n, s2, fresh), fresh)
         for (what, t1), (_, t2) in zip(observables(n, s1), observables(n, s2)):
             out.append(("at '%s': %s depends on a register that is not live-in" % (n["text"], what), idx,
                         "(and %s (distinct %s %s))" % (agree, t1, t2)))
+        if n["kind"] == "func_entry":
+            # not an instruction: its live-in is the function's argument guess (live-out minus the
+            # registers a callee may not rely on), by design not a superset of its live-out
+            continue
         for r in n["live_out"]:
             if r == 0:
                 continue
@@ -100,9 +136,14 @@ def edge_failures(nodes):
 
 
 def eligible(text):
-    """no calls, no ecall except the final exit"""
-    body = text.split("li a7, 10\n    ecall")[0]
-    return "jal ra" not in text and "ecall" not in body and "ret\n" not in text
+    """no calls; an ecall only right after its service number has been loaded (li a7, N; ecall)"""
+    lines = [l.strip() for l in text.split("\n")]
+    if "jal ra" in text or "ret" in lines:
+        return False
+    for i, l in enumerate(lines):
+        if l == "ecall" and not (i > 0 and lines[i - 1].startswith("li a7, ")):
+            return False
+    return True
 
 
 def run(programs):
